@@ -36,6 +36,51 @@ CHUNK = 4
 PARTS = ["s1", "s2", "s3", "r1", "r2", "out"]
 
 
+def gen_prog_tl(seed, tier):
+    """An arbitrary generated program under real clock processes: add_clock() with seeded periods/phases per domain, one
+    testbench that hops from one clock-toggle instant to the next with ctx.delay() and sets inputs / resets in between."""
+    from dsim import progen
+    cfg = stream(seed, "cfg")
+    wl = stream(seed, "workload")
+    fl = stream(seed, "faults")
+    prog = progen.gen_program(cfg, {"max_domains": 3, "max_modules": 3, "wrappers": cfg.random() < 0.4, "max_stmts": 6, "depth": 1,
+                                    "clock_reads": True})
+    per = [2, 4, 6, 10, 20, 50, 100]
+    clocks = {}
+    base_ph = cfg.choice([1, 2, 3, 5])
+    for d in prog["domains"]:
+        p = cfg.choice(per)
+        clocks[d["name"]] = {"period": p, "phase": cfg.choice([None, base_ph, base_ph, 1, p // 2, p, p + 1])}
+    sigs = prog["signals"]
+    inputs = [i for i, s in enumerate(sigs) if s["role"] in ("input", "ctl") and s["width"] > 0]
+    rst_doms = [d["name"] for d in prog["domains"] if not d["reset_less"]]
+    rl = {d: 0 for d in rst_doms}
+    steps = []
+    n = cfg.randint(10, 60) if tier == "quick" else cfg.randint(10, 200)
+    for _ in range(n):
+        r = wl.random()
+        if r < 0.3 and inputs:
+            i = wl.choice(inputs)
+            w = sigs[i]["width"]
+            steps.append({"k": "set", "s": i, "v": wl.choice([0, (1 << w) - 1, wl.randrange(1 << w)])})
+        elif r < 0.38 and rst_doms:
+            dn = fl.choice(rst_doms)
+            rl[dn] ^= 1
+            steps.append({"k": "rst", "d": dn, "l": rl[dn]})
+        else:
+            steps.append({"k": "adv"})
+    orders = [["insertion", 0], ["reverse", 0], ["seeded", fl.randrange(1 << 32)], ["hash", 0]]
+    if tier == "quick":
+        orders = [orders[2], orders[fl.choice([0, 1, 3])]]
+    return {"kind": "prog_tl", "prog": prog, "clocks": clocks, "steps": steps, "orders": orders}
+
+
+def gen_case_i(seed, tier, index):
+    if index % 4 == 3:
+        return gen_prog_tl(seed, tier)
+    return gen_case(seed, tier)
+
+
 def gen_case(seed, tier):
     cfg = stream(seed, "cfg")
     wl = stream(seed, "workload")
@@ -541,7 +586,132 @@ def simulate(case, order):
     return log, decisions, end
 
 
+def _toggle_info(clocks, domains, t):
+    """domains toggling at instant t -> {name: new level}"""
+    out = {}
+    for d in domains:
+        c = clocks[d["name"]]
+        half = c["period"] // 2
+        ph = c["phase"] if c["phase"] is not None else half
+        if t >= ph and (t - ph) % half == 0:
+            k = (t - ph) // half
+            out[d["name"]] = (k + 1) % 2
+    return out
+
+
+def _next_toggle(clocks, domains, t):
+    best = None
+    for d in domains:
+        c = clocks[d["name"]]
+        half = c["period"] // 2
+        ph = c["phase"] if c["phase"] is not None else half
+        nt = ph if t < ph else ph + ((t - ph) // half + 1) * half
+        best = nt if best is None else min(best, nt)
+    return best
+
+
+def run_prog_tl(case):
+    from amaranth.hdl import Period, Module, ClockDomain, Elaboratable
+    from amaranth.sim import Simulator
+    from dsim import progen
+    from dsim.refint import Ref
+    res = Result()
+    dig = Digest()
+    prog = case["prog"]
+    doms = prog["domains"]
+    sigs = prog["signals"]
+    stats = {"steps": 0, "edges": 0, "sim_fs": 0, "decisions": 0, "faults": {"sched": 0, "tie": 0, "zero_delay": 0, "arst": 0, "srst": 0},
+             "probes": {"prog_timeline_runs": 1, "coincident_domains": 0, "orders_executed": 0}}
+    P, F = stats["probes"], stats["faults"]
+    P.update({k: v for k, v in __import__("dsim.progdrv", fromlist=["x"]).count_features(prog).items()})
+    act = {d["name"]: (1 if d["edge"] == "pos" else 0) for d in doms}
+
+    def one(order):
+        with scheduler(order[0], order[1]) as S:
+            B = progen.build(prog)
+            cds = {d["name"]: ClockDomain(d["name"], clk_edge=d["edge"], async_reset=d["async_reset"], reset_less=d["reset_less"])
+                   for d in doms}
+
+            class Top(Elaboratable):
+                def elaborate(self, platform):
+                    m = Module()
+                    for cd in cds.values():
+                        m.domains += cd
+                    m.submodules.dut = B.top
+                    return m
+            sim = Simulator(Top())
+            for d in doms:
+                c = case["clocks"][d["name"]]
+                kw = {"phase": Period(fs=c["phase"])} if c["phase"] is not None else {}
+                sim.add_clock(Period(fs=c["period"]), domain=cds[d["name"]], **kw)
+            ref = Ref(prog)
+
+            def compare(ctx, idx, t_expected):
+                t = ctx.elapsed_time().femtoseconds
+                if t != t_expected:
+                    raise Violation("wakeup_time", idx, {"order": order, "elapsed_fs": t, "expected_fs": t_expected})
+                for i, sg in enumerate(B.sigs):
+                    got = ctx.get(sg)
+                    want = ref.sig_value(i)
+                    if got != want:
+                        raise Violation("observed_values", idx, {"order": order, "signal": i, "name": sigs[i]["name"], "got": got,
+                                                                 "expected": want, "t_fs": t})
+                for (fid, name), sg in B.ongoing.items():
+                    if ctx.get(sg) != int(ref.fsm_state[fid] == name):
+                        raise Violation("observed_values", idx, {"order": order, "fsm": fid, "state": name, "t_fs": t})
+
+            async def tb(ctx):
+                now = 0
+                compare(ctx, -1, 0)
+                for idx, st in enumerate(case["steps"]):
+                    if st["k"] == "set":
+                        si = st["s"]
+                        v = st["v"] & ((1 << sigs[si]["width"]) - 1)
+                        sg = B.sigs[si]
+                        ctx.set(sg, v - (1 << len(sg)) if (sigs[si]["signed"] and v >> (len(sg) - 1)) else v)
+                        ref.set_input(si, v)
+                    elif st["k"] == "rst":
+                        if ref.rst[st["d"]] != st["l"]:
+                            ctx.set(cds[st["d"]].rst, st["l"])
+                            if st["l"]:
+                                F["arst" if ref.doms[st["d"]]["async_reset"] else "srst"] += 1
+                            ref.set_reset(st["d"], st["l"])
+                    else:
+                        t_next = _next_toggle(case["clocks"], doms, now)
+                        await ctx.delay(Period(fs=t_next - now))
+                        now = t_next
+                        tog = _toggle_info(case["clocks"], doms, now)
+                        active = {n for n, lvl in tog.items() if lvl == act[n]}
+                        if len(tog) >= 2:
+                            P["coincident_domains"] += 1
+                            F["tie"] += 1
+                        stats["edges"] += len(tog)
+                        if active:
+                            ref.edge(active)
+                        for n, lvl in tog.items():
+                            ref.set_clock(n, lvl)
+                    stats["steps"] += 1
+                    compare(ctx, idx, now)
+                    dig.add((st["k"], now, ref.observe()), state=(order is case["orders"][0]))
+            sim.add_testbench(tb)
+            sim.run()
+            stats["sim_fs"] += sim._engine.now if hasattr(sim, "_engine") else 0
+            if order[0] != "hash":
+                stats["decisions"] += S.decisions
+            P["orders_executed"] += 1
+
+    def go():
+        for order in case["orders"]:
+            one(order)
+        if stats["decisions"]:
+            F["sched"] += 1
+    run_guarded(res, go)
+    return finish(res, dig, stats, stats["edges"] > 0 and stats["decisions"] > 0)
+
+
 def run_case(case):
+    if case.get("kind") == "prog_tl":
+        return run_prog_tl(case)
     res = Result()
     dig = Digest()
     stats = {"steps": 0, "edges": 0, "sim_fs": 0, "decisions": 0, "faults": {"sched": 0, "tie": 0, "zero_delay": 0},
@@ -606,6 +776,8 @@ def run_case(case):
 
 
 def signature(case, violation):
+    if case.get("kind") == "prog_tl":
+        return {"oracle": violation["oracle"], "kind": "prog_tl"}
     sig = {"oracle": violation["oracle"], "replace": sorted(case["config"]["replace"])}
     if violation["oracle"] == "exception":
         sig["exc"] = violation["detail"].get("type")
@@ -614,6 +786,13 @@ def signature(case, violation):
 
 
 def simplify(case):
+    if case.get("kind") == "prog_tl":
+        from dsim import progdrv
+        yield from progdrv.simplify_prog(case)
+        if len(case["orders"]) > 1:
+            for o in case["orders"]:
+                yield dict(case, orders=[o])
+        return
     c = case["config"]
     for i in range(len(case["tbs"])):
         if len(case["tbs"]) > 1:
